@@ -283,6 +283,8 @@ func (fr *frame) havocCall(st *PState, name string, sig *types.Signature, args [
 }
 
 var effectFreePrefixes = []string{
+	"(github.com/cosmos/cosmos-sdk/types.DecCoins).", "(github.com/cosmos/cosmos-sdk/types.DecCoin).", "(github.com/cosmos/cosmos-sdk/types.Coins).",
+	"github.com/cosmos/cosmos-sdk/types/address.",
 	"fmt.", "errors.", "strings.", "strconv.", "log.", "(github.com/cometbft/cometbft/libs/log.Logger)",
 	"github.com/cosmos/cosmos-sdk/telemetry.", "github.com/armon/go-metrics.",
 	"github.com/ethereum/go-ethereum/common/hexutil.", "github.com/ethereum/go-ethereum/common.",
@@ -372,6 +374,17 @@ func (fr *frame) applyContract(st *PState, ct *Contract, sig *types.Signature, f
 	for _, m := range ct.Modifies {
 		fr.havocModifies(st, env, m, ct)
 	}
+	// ghost counters
+	for _, b := range ct.Bumps {
+		t, err := env.Tr(b.By.Expr)
+		if err != nil {
+			bail("bumps of %s: %v", ShortName(ct.Func), err)
+		}
+		if t.Sort != SInt {
+			bail("bumps of %s: expected Int, got %s", ShortName(ct.Func), t.Sort)
+		}
+		st.SetGhost(b.Name, st.Name("gh", App(SInt, "+", st.Ghost(b.Name), t)))
+	}
 	// ghost events
 	for _, em := range ct.Emits {
 		t, err := env.Tr(em.Expr)
@@ -425,6 +438,9 @@ func (fr *frame) havocModifies(st *PState, env *SpecEnv, item string, ct *Contra
 	switch {
 	case item == "":
 		return
+	case strings.HasPrefix(item, "ghost(") && strings.HasSuffix(item, ")"):
+		name := strings.TrimSpace(item[6 : len(item)-1])
+		st.SetGhost(name, st.Fresh("gh_"+sanitize(name), SInt))
 	case item == "trace":
 		st.trace = st.Fresh("trace", "(Array Int Ev)")
 		n := st.Fresh("traceN", SInt)
